@@ -6,7 +6,7 @@
    yields nothing); the StopIteration branches of each clause are taken apart inside [fpat_quiet].
    Lemmas only; the model is Pat/Step.v. *)
 From Isobar Require Import Base.Prelude Pat.Val Pat.Syntax Pat.Step Pat.StepProofs Pat.IterProofs Pat.ResetProofs.
-From Coq Require Import String QArith.
+From Coq Require Import String QArith Wf_nat.
 Open Scope Z_scope.
 
 (** * Outcomes that are never StopIteration *)
@@ -110,6 +110,87 @@ Section Sticky.
   Proof.
     intros H Ho. apply (quiet_coind f (fun q => q = p)); [|reflexivity].
     intros q ->. rewrite H. split; [exact Ho|reflexivity].
+  Qed.
+
+  (** * PConcatenate: list lemmas and the stopped state *)
+  Lemma update_nth_length {A} (l : list A) : forall i x, List.length (update_nth i x l) = List.length l.
+  Proof. induction l as [|y l IH]; intros [|i] x; cbn; try reflexivity. rewrite IH. reflexivity. Qed.
+
+  Lemma nth_error_update_same {A} (l : list A) : forall n a x, nth_error l n = Some a -> nth_error (update_nth n x l) n = Some x.
+  Proof. induction l as [|y l IH]; intros [|n] a x H; cbn in *; try discriminate; try reflexivity. eapply IH; eauto. Qed.
+
+  Lemma py_index_update_same {A} (l : list A) i a x :
+    py_index l i = Some a -> py_index (update_nth (py_index_pos l i) x l) i = Some x.
+  Proof.
+    unfold py_index, py_index_pos. rewrite update_nth_length. intro H.
+    destruct ((0 <=? i) && (i <? Z.of_nat (List.length l))) eqn:E1.
+    - apply andb_true_iff in E1 as [E _]. rewrite E. eapply nth_error_update_same; eauto.
+    - destruct ((- Z.of_nat (List.length l) <=? i) && (i <? 0)) eqn:E2; [|discriminate].
+      apply andb_true_iff in E2 as [_ E]. assert (E0 : (0 <=? i) = false) by lia. rewrite E0.
+      eapply nth_error_update_same; eauto.
+  Qed.
+
+  Lemma Forall_update_nth {A} (P : A -> Prop) (l : list A) : forall i x, Forall P l -> P x -> Forall P (update_nth i x l).
+  Proof.
+    induction l as [|y l IH]; intros [|i] x Hl Hx; cbn; try assumption; inversion Hl; subst; constructor; auto.
+  Qed.
+
+  Lemma py_index_Forall {A} (P : A -> Prop) (l : list A) i a : Forall P l -> py_index l i = Some a -> P a.
+  Proof.
+    intros Hl Hi. rewrite Forall_forall in Hl. apply Hl.
+    unfold py_index in Hi. destruct ((0 <=? i) && (i <? Z.of_nat (List.length l))).
+    - eapply nth_error_In; eauto.
+    - destruct ((- Z.of_nat (List.length l) <=? i) && (i <? 0)); [eapply nth_error_In; eauto|discriminate].
+  Qed.
+
+  Lemma step_concat_eq f l pos :
+    step (S f) (PConcatenate (AL l) pos) =
+      match py_index l pos with
+      | None => (Raise IndexError, PConcatenate (AL l) pos)
+      | Some a =>
+          let '(o, a') := anext f a in
+          let l' := update_nth (py_index_pos l pos) a' l in
+          match o with
+          | Stop => if pos <? zlen l - 1 then step f (PConcatenate (AL l') (pos + 1)) else (Stop, PConcatenate (AL l') pos)
+          | _ => (o, PConcatenate (AL l') pos)
+          end
+      end.
+  Proof. reflexivity. Qed.
+
+  Lemma zlen_update (l : list arg) i x : zlen (update_nth i x l) = zlen l.
+  Proof. unfold zlen. rewrite update_nth_length. reflexivity. Qed.
+
+  (** the state in which PConcatenate raises StopIteration: on its last input, which has just stopped *)
+  Lemma concat_stop (P : arg -> Prop) : (forall f a, P a -> P (snd (anext f a))) ->
+    forall f l pos p', Forall P l -> step f (PConcatenate (AL l) pos) = (Stop, p') ->
+    exists l' pos' a0 a' f0, p' = PConcatenate (AL l') pos' /\ (pos' <? zlen l' - 1) = false /\
+                             py_index l' pos' = Some a' /\ P a0 /\ anext f0 a0 = (Stop, a') /\ (f0 < f)%nat.
+  Proof.
+    intro HP. induction f as [|f IH]; intros l pos p' Hl H; [discriminate|].
+    rewrite step_concat_eq in H. destruct (py_index l pos) as [a|] eqn:Ei; [|discriminate].
+    pose proof (py_index_Forall _ _ _ _ Hl Ei) as Fa. pose proof (HP f a Fa) as Fa'.
+    destruct (anext f a) as [o a'] eqn:Ea. cbn [snd] in Fa'. cbv zeta in H.
+    destruct o; try discriminate.
+    destruct (pos <? zlen l - 1) eqn:Epos.
+    - apply IH in H; [|apply Forall_update_nth; assumption].
+      destruct H as [l' [pos' [a0 [a'' [f0 [E1 [E2 [E3 [E4 [E5 E6]]]]]]]]]]. exists l', pos', a0, a'', f0. repeat split; try assumption. lia.
+    - inversion H; subst. exists (update_nth (py_index_pos l pos) a' l), pos, a, a', f.
+      rewrite zlen_update. repeat split; try assumption; [eapply py_index_update_same; eauto|lia].
+  Qed.
+
+  Lemma concat_stopped_quiet f pos n : forall l a, zlen l = n -> (pos <? n - 1) = false -> py_index l pos = Some a -> nquiet f a ->
+    quiet (S f) (PConcatenate (AL l) pos).
+  Proof.
+    intros l a Hn Hp Hi N.
+    apply (quiet_coind (S f)
+             (fun p => exists l a, p = PConcatenate (AL l) pos /\ zlen l = n /\ py_index l pos = Some a /\ nquiet f a)); [|eauto 8].
+    clear l a Hn Hi N. intros p [l [a [-> [Hn [Hi N]]]]]. rewrite step_concat_eq, Hi.
+    apply nquiet_unfold in N. destruct (anext f a) as [o a']. cbn [fst snd] in N. destruct N as [Y N]. cbv zeta.
+    assert (K : exists l0 a0, PConcatenate (AL (update_nth (py_index_pos l pos) a' l)) pos = PConcatenate (AL l0) pos /\
+                              zlen l0 = n /\ py_index l0 pos = Some a0 /\ nquiet f a0).
+    { eexists _, a'. split; [reflexivity|]. rewrite zlen_update. split; [exact Hn|]. split; [|exact N].
+      eapply py_index_update_same; eauto. }
+    destruct o; try discriminate Y; rewrite ?Hn, ?Hp; cbn [fst snd]; (split; [reflexivity|exact K]).
   Qed.
 
   (** * One invariant per class: the stopped state never yields *)
@@ -564,6 +645,8 @@ Section Sticky.
   | FP_dictkey a b : farg a -> farg b -> fpat (PDictKey a b)
   | FP_dictkey_dict kv b : farg b -> fpat (PDictKey (AD kv) b)
   | FP_arrayindex a b : farg a -> farg b -> fpat (PArrayIndex a b)
+  (* concatenation of patterns / scalars of the fragment *)
+  | FP_concat l pos : Forall farg l -> fpat (PConcatenate (AL l) pos)
   with farg : arg -> Prop :=
   | FA_val v : farg (AV v)
   | FA_pat p : fpat p -> farg (AP p).
@@ -668,6 +751,11 @@ Section Sticky.
         * rewrite step_dictkey_eq by (apply farg_simple; assumption). fclosed_case IHs IHv IHn.
         * rewrite step_dictkey_dict_eq. fclosed_case IHs IHv IHn.
         * rewrite step_arrayindex_eq by (apply farg_simple; assumption). fclosed_case IHs IHv IHn.
+        * rewrite step_concat_eq. destruct (py_index l pos) as [a|] eqn:Ei; [|exact Hp].
+          pose proof (IHn a (py_index_Forall _ _ _ _ H Ei)) as Fa'. destruct (anext f a) as [o a']. cbn [snd] in Fa'. cbv zeta.
+          pose proof (Forall_update_nth farg l (py_index_pos l pos) a' H Fa') as Hl'.
+          destruct o; try (cbn [snd]; apply FP_concat; exact Hl').
+          destruct (pos <? zlen l - 1); [apply IHs|cbn [snd]]; apply FP_concat; exact Hl'.
       + intros a [v|p Hp]; [exact (FA_val v)|]. rewrite value_pattern. pose proof (IHs p Hp) as K.
         destruct (step f p). apply FA_pat. exact K.
       + intros a [v|p Hp]; [exact (FA_val v)|]. rewrite anext_pattern. pose proof (IHs p Hp) as K.
@@ -705,9 +793,9 @@ Section Sticky.
     (forall a a', farg a -> value f a = (Stop, a') -> forall f2, aquiet f2 a') /\
     (forall a a', farg a -> anext f a = (Stop, a') -> forall f2, nquiet f2 a').
   Proof.
-    induction f as [|f [Q [AQ NQ]]].
+    intro f. induction f as [f IHf] using lt_wf_ind. destruct f as [|f].
     - repeat split; intros; discriminate.
-    - split; [|split].
+    - destruct (IHf f (Nat.lt_succ_diag_r f)) as [Q [AQ NQ]]. split; [|split].
       + intros p p' Hs H. inversion Hs; subst.
         * eapply counter_any_fuel; eauto.
         * discriminate.
@@ -822,6 +910,11 @@ Section Sticky.
           -- left. eapply AQ; [|eassumption]; assumption.
           -- rewrite Ea in Sa'. exact Sa'.
           -- right. eapply AQ; [|eassumption]; assumption.
+        * (* PConcatenate *)
+          destruct (concat_stop farg farg_anext_closed _ _ _ _ H0 H) as [l' [pos' [a0 [a' [f0 [-> [Hp [Hi [Fa0 [Ea0 Lt]]]]]]]]]].
+          intros [|f2]; [apply quiet_0|].
+          eapply concat_stopped_quiet; [reflexivity|exact Hp|exact Hi|].
+          eapply (proj2 (proj2 (IHf f0 Lt))); eauto.
       + intros a a' Hs H. destruct Hs as [v|p Hp]; [discriminate|].
         rewrite value_pattern in H. destruct (step f p) as [o p1] eqn:E. inversion H; subst.
         intros [|f2]; [apply aquiet_0|]. apply aquiet_pattern. eapply Q; eauto.
